@@ -3,7 +3,7 @@
    These are the executable forms of the history-level statements of C07-C10. *)
 From Coq Require Import String.
 From Coq Require Import List NArith ZArith Bool.
-From Verif Require Import GoStr GoNum GoHeader Sx Sha1 Tables Route Forward Serve Wire Meta Fresh Key Cache SpecC10 Monitors.
+From Verif Require Import GoStr GoNum GoHeader Sx Sha1 Tables Route Forward Serve Wire Range Meta Fresh Key Cache SpecC10 SpecC15 Monitors.
 Import ListNotations.
 Open Scope Z_scope.
 
@@ -299,6 +299,51 @@ Definition judge (p : str) (sfx : option str) (rules : list rule) (expires : lis
         | _, _ => v_ok
         end
       else v_ok in
+  let v15 :=
+      let rng := hget (q_hdrs q) (bytes "range") in
+      let cached_rule := match rule with Some r => nonempty (r_cache r) | None => false end in
+      if nonempty rng && cached_rule && is_get && str_eqb (cobs_kind o) (bytes "origin") then
+        let filled_by := match lr with
+                         | Some r => if rs_status r =? 200 then Some (rs_body r, nonempty (hget (rs_hdrs r) (bytes "content-length"))) else None
+                         | None => match ent with
+                                   | Some e => if se_status e =? 200 then Some (se_body e, nonempty (hget (se_hdrs e) (bytes "content-length"))) else None
+                                   | None => None
+                                   end
+                         end in
+        match filled_by with
+        | None => v_ok
+        | Some (res, has_cl) =>
+          let n := Z.of_nat (length res) in
+          let spec_r := spec_parse_range rng in
+          let is_empty := n =? 0 in
+          let kf := kf_C15 spec_r n in
+          if existsb (fun d => hhas (dl_hdrs d) (bytes "range")) (cobs_log o)
+          then verdict false "the origin was asked for a range instead of the whole resource"
+          else if sx_bool (sx_nth 4 (sx_nth 0 o)) then verdict_kf false "the response to a Range request was cut short of its declared length" kf
+          else
+            let a := mkAnswer (cobs_status o) (parse_int (sx_str (sx_nth 5 (sx_nth 0 o))))
+                              (parse_cr_value (hget (cobs_hdrs o) (bytes "content-range"))) (cobs_body o) in
+            match spec_r with
+            | Some r => if answer_ok r res a then v_ok
+                        else verdict_kf false "answer to a single byte range is neither the exact 206, nor the complete 200, nor a justified 416" kf
+            | None =>
+              if (cobs_status o =? 200) && str_eqb (cobs_body o) res then v_ok
+              else if cobs_status o =? 206 then
+                match an_cr a, an_cl a with
+                | Some (f, l, n'), Some cl =>
+                  if (0 <=? f) && (f <=? l) && (l <? n) && (n' =? n) && (cl =? l - f + 1) && str_eqb (cobs_body o) (slice res f l) then v_ok
+                  else verdict_kf false "206 for a malformed Range is not self-consistent" kf
+                | _, _ => verdict_kf false "206 without Content-Range/Content-Length" kf
+                end
+              else if cobs_status o =? 416 then v_ok
+              else verdict_kf false "malformed Range answered with neither the complete 200, a consistent 206 nor 416" kf
+            end
+        end
+      else if nonempty rng && cached_rule && is_get && negb (str_eqb (cobs_kind o) (bytes "origin")) && negb (cobs_status o =? 416)
+              && negb ((400 <=? cobs_status o) && match lr with Some r => negb (rs_status r =? 200) | None => true end)
+      then verdict_kf false "a Range request on a cached resource was answered with a bare error"
+                      ""%string
+      else v_ok in
   let v_done := if str_eqb (cobs_kind o) (bytes "no-response")
                 then verdict false "the request never completed (unbounded internal recursion against the origin)" else v_ok in
   let v := if str_eqb p (bytes "C08") then first_fail [v_done; v08]
@@ -306,6 +351,7 @@ Definition judge (p : str) (sfx : option str) (rules : list rule) (expires : lis
            else if str_eqb p (bytes "C10") then first_fail [v10; v10b]
            else if str_eqb p (bytes "C09") then first_fail [v09; v09b]
            else if str_eqb p (bytes "C05") then first_fail [v_done; v05]
+           else if str_eqb p (bytes "C15") then v15
            else v_ok in
   (v, mkW now sc' store' (cobs_disk o) forbidden').
 
